@@ -786,3 +786,49 @@ def fold_constants(node, consts: dict):
             self.generic_visit(n)
             return n
     return F().visit(copy.deepcopy(node))
+
+
+def normalise_enumerate_range(fnode):
+    """`for i, x in enumerate(range(0, P * S, S)): BODY`  ->
+    `for i in range(P): x = i * S; BODY`  (the same pairs (i, x), the loop the
+    chunking rules know)."""
+    import copy
+
+    class T(ast.NodeTransformer):
+        def visit_For(self, n):
+            self.generic_visit(n)
+            it = n.iter
+            if not (isinstance(it, ast.Call) and isinstance(it.func, ast.Name) and
+                    it.func.id == "enumerate" and len(it.args) == 1 and not it.keywords
+                    and isinstance(n.target, ast.Tuple) and len(n.target.elts) == 2 and
+                    all(isinstance(e, ast.Name) for e in n.target.elts)):
+                return n
+            r = it.args[0]
+            if not (isinstance(r, ast.Call) and isinstance(r.func, ast.Name) and
+                    r.func.id == "range" and len(r.args) == 3 and
+                    isinstance(r.args[0], ast.Constant) and r.args[0].value == 0 and
+                    isinstance(r.args[1], ast.BinOp) and
+                    isinstance(r.args[1].op, ast.Mult)):
+                return n
+            step = ast.unparse(r.args[2])
+            l, rr = r.args[1].left, r.args[1].right
+            if ast.unparse(rr) == step:
+                parts = l
+            elif ast.unparse(l) == step:
+                parts = rr
+            else:
+                return n
+            idx, start = n.target.elts
+            bind = ast.Assign(
+                targets=[ast.Name(id=start.id, ctx=ast.Store())],
+                value=ast.BinOp(left=ast.Name(id=idx.id, ctx=ast.Load()), op=ast.Mult(),
+                                right=copy.deepcopy(r.args[2])))
+            new = ast.For(target=ast.Name(id=idx.id, ctx=ast.Store()),
+                          iter=ast.Call(func=ast.Name(id="range", ctx=ast.Load()),
+                                        args=[copy.deepcopy(parts)], keywords=[]),
+                          body=[bind] + n.body, orelse=n.orelse)
+            ast.copy_location(new, n)
+            for x in ast.walk(bind):
+                ast.copy_location(x, n)
+            return ast.fix_missing_locations(new)
+    return T().visit(copy.deepcopy(fnode))
